@@ -182,6 +182,20 @@ def damaged_lines(case):
                 if lines[k][:1] in (b' ', b'+', b'-')]
     k = counting[d['pos'] % len(counting)]
 
+    if d['kind'] == 'flip':
+        # one side of the last hunk comes up short (and the other long) by
+        # changing the sign of a counting line; nothing follows the hunk,
+        # so it ends early at the end of the list
+        start, last, _n = with_body[-1]
+        counting = [i for i in range(start + 1, last + 1)
+                    if lines[i][:1] in (b' ', b'+', b'-')]
+        k = counting[d['pos'] % len(counting)]
+        sign = lines[k][:1]
+        other = {b' ': b'+', b'+': b'-', b'-': b'+'}[sign]
+        new = list(lines[:last + 1])
+        new[k] = other + new[k][1:]
+        return new, len(new) - 1, new[-1]
+
     if d['kind'] == 'truncate':
         # cut so that the hunk is incomplete: keep lines[:k]
         cut = lines[:k]
@@ -279,13 +293,15 @@ def damaged(draw):
         'tolerant': draw(hs.booleans()),
         'damage': {
             'kind': draw(hs.sampled_from(['truncate', 'replace', 'replace',
-                                          'header'])),
+                                          'header', 'flip'])),
             'hunk': draw(hs.integers(0, 5)),
             'pos': draw(hs.integers(0, 20)),
             'line': draw(hs.sampled_from(
                 [b'', b'garbage', b'@@ not a header', b'diff --git a b',
                  b'\\ No newline', b'\\ no newline at end of file',
-                 b'#.change:', b'\ttab', b'@@', b'\\', b'x+', b'\r'])),
+                 b'#.change:', b'\ttab', b'@@', b'\\', b'x+', b'\r',
+                 b'g' * 1023, b'g' * 1025, b'@@ ' + b'h' * 5000,
+                 b'z' * 70000])),
         },
     }
 
